@@ -1015,8 +1015,10 @@ package mcp
 //@ func sseNotificationSender.SendNotification
 //@   before call WriteEvent#1 assert[C10 event-id-freshly-generated-by-the-senders-generator] arg2.ID == lastgen && lastgenw == s.sseWriter && gens == old(gens) + 1
 //@ func sseResponder.sendSSEEvent
+//@   inline
 //@   before call WriteEvent#1 assert[C10 event-id-freshly-generated-by-the-responders-generator] arg2.ID == lastgen && lastgenw == r.sseWriter && gens == old(gens) + 1
 //@ func sseResponder.sendSSEMessage
+//@   inline
 //@   before call WriteEvent#1 assert[C10 event-id-freshly-generated-by-the-responders-generator] arg2.ID == lastgen && lastgenw == r.sseWriter && gens == old(gens) + 1
 //@   ensures[C10 returned-id-is-the-id-written] ret1 == nil ==> ret == lastgen
 //@ func sseNotificationSender.SendCustomNotification
